@@ -6,7 +6,7 @@
  *   REP_DO(S)        the statement form S(0); ...; S(CAP-1);   (no loop)
  * Used in `requires` clauses (and in straight-line stub models), where a fact about an array is needed at a
  * LOOP-DEPENDENT cell and a single ghost index cannot supply it.  P must guard itself (e.g. `!(i < n) || ...`).
- * CAP must be one of 2, 4, 8, 12, 16, 24, 32.  Usable from C and C++. */
+ * CAP must be one of 2, 4, 6, 8, 12, 16, 24, 32.  Usable from C and C++. */
 #ifndef VERIF_REP_H
 #define VERIF_REP_H
 
@@ -39,6 +39,10 @@
 #define REP_ALL(P)  (REP_4(P, 0))
 #define REP_ALLB(P, a) (REPB_4(P, a, 0))
 #define REP_DO(S)   REPS_4(S, 0)
+#elif CAP == 6
+#define REP_ALL(P)  (REP_4(P, 0) && REP_2(P, 4))
+#define REP_ALLB(P, a) (REPB_4(P, a, 0) && REPB_2(P, a, 4))
+#define REP_DO(S)   REPS_4(S, 0) REPS_2(S, 4)
 #elif CAP == 8
 #define REP_ALL(P)  (REP_8(P, 0))
 #define REP_ALLB(P, a) (REPB_8(P, a, 0))
@@ -60,6 +64,6 @@
 #define REP_ALLB(P, a) (REPB_32(P, a, 0))
 #define REP_DO(S)   REPS_32(S, 0)
 #else
-#error "rep.h: CAP must be one of 2, 4, 8, 12, 16, 24, 32"
+#error "rep.h: CAP must be one of 2, 4, 6, 8, 12, 16, 24, 32"
 #endif
 #endif
